@@ -3,6 +3,8 @@ package main
 import (
 	"fmt"
 	"go/types"
+	"os"
+	"reflect"
 	"strings"
 
 	"golang.org/x/tools/go/ssa"
@@ -43,7 +45,14 @@ func ruleReflectValidity(c *Ctx, rule string, f *ssa.Function) int {
 		if v == nil {
 			continue
 		}
-		isV := func(x ssa.Value) bool { return x == v }
+		isV := func(x ssa.Value) bool {
+			if x == v {
+				return true
+			}
+			// (the value merged with the not-a-pointer case: `if v.Kind() == Ptr { v = v.Elem() }`)
+			_, isPhi := x.(*ssa.Phi)
+			return isPhi && someOrigin(x, oIsValue(v))
+		}
 		valid := factBool(func(x ssa.Value) bool {
 			k := asCall(x)
 			if k == nil || calleeName(&k.Call) != "(reflect.Value).IsValid" {
@@ -58,9 +67,9 @@ func ruleReflectValidity(c *Ctx, rule string, f *ssa.Function) int {
 				continue
 			}
 			recv, args := callArgs(ci.Common())
-			uses := recv == v
+			uses := recv != nil && isV(recv)
 			for _, a := range args {
-				if a == v {
+				if isV(a) {
 					uses = true
 				}
 			}
@@ -123,6 +132,29 @@ func runC15(c *Ctx) {
 			isClose := d.Call.IsInvoke() && d.Call.Method.Name() == "Close" || strings.HasSuffix(name, ").Close") || name == ""
 			c.obI("R15.1", d, "deferred-error-only-of-close", isClose, "the only deferred calls whose error a codec ignores are closes; every write (Flush included) has its error returned", "the error of deferred "+name+" is dropped: a failed write is reported as success")
 		}
+		// a deferred function that assigns the codec's (named) error result must not wipe out an earlier failure:
+		// it assigns only when the result is still nil
+		for _, g := range f.AnonFuncs {
+			for _, in := range ownInstrs(g) {
+				st, isSt := in.(*ssa.Store)
+				if !isSt {
+					continue
+				}
+				fv, isFV := st.Addr.(*ssa.FreeVar)
+				if !isFV || typeStr(fv.Type()) != "*error" {
+					continue
+				}
+				cell := freeVarCell(fv)
+				if cell == nil || cell.Parent() != f || !isResultCell(f, cell) {
+					continue
+				}
+				stillNil := factNil(func(v ssa.Value) bool {
+					ad, ok := derefLoad(v)
+					return ok && ad == ssa.Value(fv)
+				}, true)
+				c.obI("R15.1", st, "deferred-assignment-keeps-earlier-error", guardedBy(st, nil, stillNil), "a deferred function assigns the codec's error result only while it is still nil (the outcome of closing never replaces an earlier read, write or marshal failure)", "the deferred function overwrites the error result unconditionally: a failed transfer followed by a successful close is reported as success")
+			}
+		}
 		// R15.4 nil guards
 		isIface := func(v *ssa.Parameter) bool {
 			return strings.HasPrefix(typeStr(v.Type()), "io.") || typeStr(v.Type()) == "interface{}" || typeStr(v.Type()) == "any"
@@ -144,7 +176,7 @@ func runC15(c *Ctx) {
 							uses = true
 						} else if _, isP := a.(*ssa.Parameter); isP {
 							// the parameter of a helper the codec hands it to
-							if okP, _ := allOrigins(a, oIsValue(prm)); okP {
+							if someOrigin(a, oIsValue(prm)) { // (some: the helper may be shared with other codecs)
 								uses = true
 							}
 						}
@@ -156,7 +188,15 @@ func runC15(c *Ctx) {
 						continue
 					}
 					nUse++
-					if !guardedBy(ci, nil, factNil(vIs(prm), false)) {
+					if os.Getenv("RTDEBUG") != "" {
+						fmt.Fprintf(os.Stderr, "nil-use %s prm=%s at %s in %s\n", cd.outer, prm.Name(), c.P.InstrPos(ci), ci.Parent())
+					}
+					if ci.Parent() != f && isTransparent(ci.Parent()) {
+						// a use inside a helper shared with other codecs: judged on the paths that enter it from this codec
+						if pathExistsUnder(f, nil, ci, factNil(vIs(prm), false), nil) {
+							okAll = false
+						}
+					} else if !guardedBy(ci, nil, factNil(vIs(prm), false)) {
 						okAll = false
 					}
 				}
@@ -256,6 +296,89 @@ func runC15(c *Ctx) {
 		}
 		// R15.3
 		nValid += ruleReflectValidity(c, "R15.3", f)
+		// a codec holds no scratch memory across calls: the function literal captures no byte buffer made by its
+		// constructor (one producer/consumer value serves concurrent requests; a shared copy buffer interleaves them)
+		for _, in := range instrs(outer) {
+			mc, isMC := in.(*ssa.MakeClosure)
+			if !isMC || mc.Fn != ssa.Value(f) {
+				continue
+			}
+			for i, b := range mc.Bindings {
+				shared := ""
+				for _, o := range originsOf(b) {
+					switch x := o.V.(type) {
+					case *ssa.MakeSlice:
+						shared = "a " + typeStr(x.Type()) + " made by " + fnName(outer)
+					case *ssa.Alloc:
+						if t := typeStr(x.Type()); x.Parent() == outer && (t == "*bytes.Buffer" || strings.HasPrefix(t, "*[") && strings.HasSuffix(t, "]byte")) {
+							shared = "a " + t + " declared by " + fnName(outer)
+						}
+					case *ssa.Slice:
+						if al, isAl := x.X.(*ssa.Alloc); isAl && al.Parent() == outer && strings.HasSuffix(typeStr(x.Type()), "[]byte") {
+							shared = "a []byte made by " + fnName(outer)
+						}
+					}
+				}
+				name := "?"
+				if i < len(f.FreeVars) {
+					name = f.FreeVars[i].Name()
+				}
+				if shared != "" {
+					c.obD("R15.5", mc, "codec-captures-no-scratch-buffer", false, "the codec's function captures no buffer of its constructor", "captured variable '"+name+"' is "+shared+": every call of this codec value reads and writes the same memory")
+				}
+			}
+		}
+		// ByteStreamConsumer's buffered path reports success only after the bytes read — however few — were delivered
+		// to the destination (an "empty input, nothing to do" shortcut leaves a reused destination with its old content
+		// and accepts destinations of unsupported types)
+		if cd.outer == "rt.ByteStreamConsumer" {
+			for _, rf := range callsIn(f, "(*bytes.Buffer).ReadFrom") {
+				isDeliver := func(in ssa.Instruction) bool {
+					if ci, ok := in.(ssa.CallInstruction); ok {
+						n := calleeName(ci.Common())
+						if n == "(reflect.Value).SetBytes" || n == "(reflect.Value).SetString" {
+							return true
+						}
+						if ci.Common().IsInvoke() && (ci.Common().Method.Name() == "UnmarshalBinary" || ci.Common().Method.Name() == "UnmarshalText") {
+							return true
+						}
+					}
+					if st, ok := in.(*ssa.Store); ok {
+						_, isMI := st.Val.(*ssa.MakeInterface)
+						return isMI && typeStr(st.Addr.Type()) == "*interface{}" || typeStr(st.Addr.Type()) == "*any"
+					}
+					return false
+				}
+				for _, r := range realReturns(f) {
+					if !isNilConst(resOf(r, 0)) || !pathExists(f, rf, r, nil, nil) {
+						continue
+					}
+					c.obI("R15.5", r, "success-only-after-delivery", !pathExists(f, rf, r, nil, isDeliver), "after buffering the stream, ByteStreamConsumer returns nil only once the bytes were stored into the destination", "a nil error is returned after buffering although nothing was delivered")
+				}
+			}
+		}
+		// reflect.Value.SetBytes needs a slice of BYTES, SetString a string: each is called only behind the matching kind
+		// test (a pointer to any other slice — *[]int — must end in the "not supported" error, not in a panic)
+		if cd.outer == "rt.ByteStreamConsumer" || cd.outer == "rt.TextConsumer" {
+			kindIs := func(k int64, ofElem bool) EdgePred {
+				return factEqInt(func(v ssa.Value) bool {
+					kc := asCall(v)
+					if kc == nil || !strings.HasSuffix(calleeName(&kc.Call), ".Kind") && !(kc.Call.IsInvoke() && kc.Call.Method.Name() == "Kind") {
+						return false
+					}
+					_ = ofElem
+					return true
+				}, k, true)
+			}
+			for _, ci := range callsIn(f, "(reflect.Value).SetBytes") {
+				ok := guardedBy(ci, nil, kindIs(int64(reflect.Uint8), true))
+				c.obI("R15.3", ci, "SetBytes-needs-byte-slice", ok, "SetBytes is reached only after the destination's element kind was tested to be Uint8", "SetBytes is reachable for a slice whose element kind was not tested: a pointer to a non-byte slice panics")
+			}
+			for _, ci := range callsIn(f, "(reflect.Value).SetString") {
+				ok := guardedBy(ci, nil, kindIs(int64(reflect.String), false))
+				c.obI("R15.3", ci, "SetString-needs-string", ok, "SetString is reached only after the destination's kind was tested to be String", "SetString is reachable without the kind test")
+			}
+		}
 		// R15.5 no aliasing of stored bytes
 		if cd.outer == "rt.ByteStreamConsumer" || cd.outer == "rt.TextConsumer" {
 			private := func(o Origin) bool {
@@ -267,10 +390,13 @@ func runC15(c *Ctx) {
 				al, ok := recv.(*ssa.Alloc)
 				if !ok {
 					// buf := new(bytes.Buffer)
-					okN, _ := allOrigins(recv, func(oo Origin) bool { a2, isA := oo.V.(*ssa.Alloc); return isA && a2.Parent() == f })
+					okN, _ := allOrigins(recv, func(oo Origin) bool {
+						a2, isA := oo.V.(*ssa.Alloc)
+						return isA && (a2.Parent() == f || isTransparent(a2.Parent()))
+					})
 					return okN
 				}
-				return al.Parent() == f
+				return al.Parent() == f || isTransparent(al.Parent()) // (a buffer declared by a helper this call runs)
 			}
 			n := 0
 			for _, ci := range allCalls(f) {
@@ -300,9 +426,14 @@ func runC15(c *Ctx) {
 			}
 			c.obRF("R15.5", f, "stores-bytes", n >= 1, "the consumer stores what it read", "")
 			// and the buffer is filled from the reader by ReadFrom
-			for _, rf := range callsIn(f, "(*bytes.Buffer).ReadFrom") {
+			for _, site := range callSitesUnder(f, "(*bytes.Buffer).ReadFrom") {
+				rf := site.In.(ssa.CallInstruction)
 				_, a := callArgs(rf.Common())
-				c.obI("R15.5", rf, "reads-whole-stream", a[0] == ssa.Value(stream), "the private buffer is filled by reading the stream to its end", "")
+				okS := a[0] == ssa.Value(stream)
+				if !okS {
+					site.at(func() { okS, _ = allOrigins(a[0], oIsValue(stream)) }) // (the stream handed to a buffering helper)
+				}
+				c.obI("R15.5", rf, "reads-whole-stream", okS, "the private buffer is filled by reading the stream to its end", "")
 			}
 		}
 	}
@@ -348,6 +479,32 @@ func runC15(c *Ctx) {
 		okJ = okJ && nd != nil && calleeName(&nd.Call) == "encoding/json.NewDecoder" && nd.Call.Args[0] == ssa.Value(jc.Params[0])
 	}
 	c.obF("R15.6", jc, "json-preserves-numbers", okJ, "the JSON consumer decodes the reader with UseNumber (numbers beyond float64 precision survive)", "")
+	// the XML consumer parses XML as XML: the decoder keeps its strict defaults (a decoder switched to the lenient
+	// HTML settings auto-closes elements such as <link> or <meta> and drops their content without an error)
+	{
+		xc := codecFuncOf(p.Fn("rt.XMLConsumer"), 2, 1)
+		for _, fn := range append([]*ssa.Function{xc}, anonFuncsDeep(xc)...) {
+			for _, in := range instrs(fn) {
+				st, isSt := in.(*ssa.Store)
+				if !isSt {
+					continue
+				}
+				fa, isFA := st.Addr.(*ssa.FieldAddr)
+				if !isFA {
+					continue
+				}
+				n, stt := structOf(fa.X.Type())
+				if n == nil || typeFullName(n) != "encoding/xml.Decoder" {
+					continue
+				}
+				fld := stt.Field(fa.Field).Name()
+				lenient := fld == "Strict" || fld == "AutoClose" || fld == "Entity"
+				c.definite = true
+				c.obI("R15.6", st, "xml-decoder-stays-strict", !lenient, "the XML consumer leaves the decoder's Strict / AutoClose / Entity settings alone (well-formed XML round-trips; malformed XML is an error, not a shorter success)", "the decoder's "+fld+" is set: documents are parsed leniently")
+				c.definite = false
+			}
+		}
+	}
 	jp := codecFuncOf(p.Fn("rt.JSONProducer"), 2, 1)
 	se := callsIn(jp, "(*encoding/json.Encoder).SetEscapeHTML")
 	en := callsIn(jp, "(*encoding/json.Encoder).Encode")
@@ -442,4 +599,16 @@ func ruleSourceAlwaysClosed(c *Ctx, rule string, f *ssa.Function, data *ssa.Para
 		c.obI(rule, ci, "source-close-deferred-before-"+strings.TrimLeft(name, "("), !unclosed, "a closable source payload has its Close deferred before any use of the payload, whatever other interfaces (WriterTo, Reader, BinaryMarshaler …) it implements", "the payload can be consumed through this call without its Close having been deferred")
 	}
 	c.obRF(rule, f, "source-io-sites", n >= 3, "the producer's uses of the payload are enumerated", fmt.Sprintf("%d", n))
+}
+
+// isResultCell: the local cell is a named result of f (its value is what the returns of f hand back).
+func isResultCell(f *ssa.Function, cell *ssa.Alloc) bool {
+	for _, r := range returnsOf(f) {
+		for _, res := range r.Results {
+			if ad, ok := derefLoad(res); ok && ad == ssa.Value(cell) {
+				return true
+			}
+		}
+	}
+	return false
 }
